@@ -1,0 +1,29 @@
+//go:build verif
+
+package tso
+
+// Contracts for govc (see /verif/DESIGN.md). Compiled only with -tags verif.
+// The counter is the atomic's value field; arithmetic is 64-bit and bit-precise, the
+// only assumption is the stated no-wrap precondition.
+
+//@ func NewAllocator
+//@   property C27
+//@   ensures [first-is-start] result != nil && result.counter.v + 1 == (start == 0 ? 1 : start)
+
+//@ func (*Allocator).Next
+//@   property C27
+//@   requires a == nil || a.counter.v < 18446744073709551615
+//@   ensures [fresh] a != nil ==> result == old(a.counter.v) + 1 && a.counter.v == result && result > old(a.counter.v)
+//@   modifies a.counter.v
+
+//@ func (*Allocator).Reserve
+//@   property C27
+//@   requires a == nil || math(a.counter.v) + math(n) <= 18446744073709551615
+//@   ensures [fresh-interval] a != nil && n != 0 ==> err == nil && count == n && first == old(a.counter.v) + 1 && a.counter.v == old(a.counter.v) + n && first > old(a.counter.v) && first + (n - 1) == a.counter.v
+//@   ensures [rejected-unchanged] a != nil && n == 0 ==> err != nil && a.counter.v == old(a.counter.v)
+//@   modifies a.counter.v
+
+//@ func (*Allocator).Current
+//@   property C27
+//@   ensures [reads] a != nil ==> result == a.counter.v
+//@   modifies nothing
